@@ -252,6 +252,13 @@ func PatchLinker(goRoot, goVersion, cacheDir, tempDir string) (string, func(), e
 		return outputLinkPath, unlock, nil
 	}
 
+	// The cached linker is about to be rebuilt in place. Drop the version stamp first,
+	// so that an interrupted build can never leave a partial or mismatched linker
+	// next to a stamp which claims it is up to date.
+	if err := os.Remove(outputLinkPath + versionExt); err != nil && !os.IsNotExist(err) {
+		return "", nil, err
+	}
+
 	srcDir := filepath.Join(goRoot, "src")
 	workingDir := filepath.Join(tempDir, "linker-src")
 
